@@ -17,6 +17,21 @@
  * carry its predecessor's number plus one.  Of a meta message the document
  * says that only the meta field is used: its WORD-SIZE-16 bit, sequence and
  * address are taken from the emitted frame.
+ *
+ * Further dimensions:
+ *  - the request frame handed to a responder carries every combination of its
+ *    three option bits, in particular a WORD-SIZE-16 bit that differs from the
+ *    attached memory's width (regp_resp_ack used by hand between regp_recv and
+ *    regp_process);
+ *  - every emission is received three times: by a receiver with a large block,
+ *    by one whose block has room for exactly the frame, and by one with one
+ *    octet to spare; the receivers differ in attached memory width and in the
+ *    way their source delivers (octet-wise, chunks, chunks through a scratch
+ *    buffer of 64 octets);
+ *  - sink answers: every emitter x transport x octet/chunk sink, the sink
+ *    answering EAGAIN / EINTR / a short write / a zero-length write / a hard
+ *    error at every call position (and a second such answer behind it): an
+ *    emitter that reports success must have put exactly the frame on the wire.
  */
 #include "mc.h"
 #include "regp_ref.h"
@@ -102,77 +117,216 @@ new_session(bool tcp, bool m16, unsigned before)
     return true;
 }
 
+/* ---- one emission --------------------------------------------------------------- */
+
+/* reqvar: the option bits of the request frame handed to a responder.  Bit 0:
+ * its WORD-SIZE-16 bit differs from the attached memory's width; bits 1 and 2:
+ * its WITH-HEADER-CRC / WITH-PAYLOAD-CRC bits (a response's own checksum bits
+ * are the transport's business, not the request's). */
+struct emission {
+    int e;
+    bool tcp, m16;
+    int anstype;
+    uint32_t addr;
+    uint16_t seq;
+    size_t n;
+    int content;
+    uint32_t value;
+    unsigned reqvar;
+    /* derived by em_prepare */
+    RPFrame req;
+    bool mismatch;     /* acknowledgement for a request of the other word size */
+    unsigned char *pl; /* payload memory: exact-size heap block */
+    size_t plbuf;      /* its size */
+    size_t plen;       /* payload octets the frame has to carry (mismatch: fixed after the emission) */
+};
+
+static void
+em_prepare(struct emission *m)
+{
+    const int e = m->e;
+    memset(&m->req, 0, sizeof m->req);
+    m->req.header.type = m->anstype ? RP_FRAME_WRITE_REQUEST : RP_FRAME_READ_REQUEST;
+    m->req.header.sequence = m->seq;
+    m->req.header.address = m->addr;
+    m->req.header.blocksize = 3;
+    const bool req16 = m->m16 != ((m->reqvar & 1u) != 0);
+    m->req.header.options = (req16 ? RP_OPT_WORD_SIZE_16 : 0) | (m->reqvar & (RP_OPT_WITH_HEADER_CRC | RP_OPT_WITH_PAYLOAD_CRC));
+    m->mismatch = (m->reqvar & 1u) && (e == E_ACK_PAYLOAD || e == E_ACK_EMPTY);
+    const bool w16 = (e == E_REQ_WRITE16) || (e == E_ACK_PAYLOAD && m->m16);
+    m->plen = (e == E_REQ_WRITE8 || e == E_REQ_WRITE16 || e == E_ACK_PAYLOAD) ? m->n * (w16 ? 2u : 1u) : 0;
+    /* An acknowledgement for a request of the other word size: n units are
+     * handed over; whether they are units of the attached memory or of the
+     * request is not fixed, so the block holds n units of the wider kind and
+     * the frame says (WORD-SIZE-16) how many octets of it are the payload. */
+    m->plbuf = (m->mismatch && e == E_ACK_PAYLOAD) ? m->n * 2u : m->plen;
+    m->pl = mc_exact(m->plbuf);
+    fill(m->pl, m->plbuf, m->content);
+}
+
+static void
+em_release(struct emission *m)
+{
+    free(m->pl);
+    m->pl = NULL;
+}
+
+static int
+em_emit(RegP *p, const struct emission *m)
+{
+    const uint32_t addr = m->addr, value = m->value;
+    const size_t n = m->n;
+    const RPFrame *req = &m->req;
+    switch (m->e) {
+    case E_REQ_READ8: return regp_req_read8(p, addr, n);
+    case E_REQ_READ16: return regp_req_read16(p, addr, n);
+    case E_REQ_WRITE8: return regp_req_write8(p, addr, n, m->pl);
+    case E_REQ_WRITE16: return regp_req_write16(p, addr, n, (const uint16_t *)(const void *)m->pl);
+    case E_ACK_PAYLOAD: return regp_resp_ack(p, req, n ? m->pl : NULL, n);
+    case E_ACK_EMPTY: return regp_resp_ack(p, req, NULL, 0);
+    case E_EWORDSIZE: return regp_resp_ewordsize(p, req);
+    case E_EPAYLOADCRC: return regp_resp_epayloadcrc(p, req);
+    case E_EPAYLOADSIZE: return regp_resp_epayloadsize(p, req);
+    case E_ERXOVERFLOW: return regp_resp_erxoverflow(p, req, value);
+    case E_ETXOVERFLOW: return regp_resp_etxoverflow(p, req, value);
+    case E_EBUSY: return regp_resp_ebusy(p, req);
+    case E_EUNMAPPED: return regp_resp_eunmapped(p, req, value);
+    case E_EACCESS: return regp_resp_eaccess(p, req, value);
+    case E_ERANGE: return regp_resp_erange(p, req, value);
+    case E_EINVALID: return regp_resp_einvalid(p, req, value);
+    case E_EIO: return regp_resp_eio(p, req);
+    case E_META_ENC: return regp_resp_meta(p, RP_META_EHEADERENC);
+    case E_META_CRC: return regp_resp_meta(p, RP_META_EHEADERCRC);
+    }
+    return -EINVAL;
+}
+
+/* the semantic fields the emission has to carry, as far as they are known
+ * before it (see `one` for what is taken from the emitted frame) */
+static void
+em_want(const struct emission *m, struct rframe *want, unsigned char p32[4])
+{
+    const int e = m->e;
+    memset(want, 0, sizeof *want);
+    want->seq = m->seq;
+    want->addr = m->addr;
+    p32[0] = (unsigned char)(m->value >> 24);
+    p32[1] = (unsigned char)(m->value >> 16);
+    p32[2] = (unsigned char)(m->value >> 8);
+    p32[3] = (unsigned char)m->value;
+    switch (e) {
+    case E_REQ_READ8: want->type = RT_READ_REQ; want->bsize = (uint32_t)m->n; break;
+    case E_REQ_READ16: want->type = RT_READ_REQ; want->bsize = (uint32_t)m->n; want->options = RO_W16; break;
+    case E_REQ_WRITE8: want->type = RT_WRITE_REQ; want->bsize = (uint32_t)m->n; want->payload = m->pl; want->plen = m->plen; break;
+    case E_REQ_WRITE16: want->type = RT_WRITE_REQ; want->bsize = (uint32_t)m->n; want->options = RO_W16; want->payload = m->pl; want->plen = m->plen; break;
+    case E_ACK_PAYLOAD: want->type = m->anstype ? RT_WRITE_RESP : RT_READ_RESP; want->bsize = (uint32_t)m->n; want->options = m->m16 ? RO_W16 : 0; want->payload = m->pl; want->plen = m->plen; break;
+    case E_ACK_EMPTY: want->type = m->anstype ? RT_WRITE_RESP : RT_READ_RESP; want->options = m->m16 ? RO_W16 : 0; break;
+    default: break;
+    }
+    if (e >= E_EWORDSIZE && e <= E_EIO) {
+        want->type = m->anstype ? RT_WRITE_RESP : RT_READ_RESP;
+        want->meta = (unsigned)ECODE[e];
+        if (e == E_ERXOVERFLOW || e == E_ETXOVERFLOW || (e >= E_EUNMAPPED && e <= E_EINVALID)) {
+            want->bsize = 4;
+            want->payload = p32;
+            want->plen = 4;
+        }
+    } else if (e >= E_META_ENC) {
+        want->type = RT_META;
+        want->meta = (unsigned)ECODE[e];
+        want->seq = 0;
+        want->addr = 0;
+    }
+    if (!m->tcp) {
+        want->options |= RO_HDCRC;
+        if (want->plen)
+            want->options |= RO_PLCRC;
+    }
+}
+
+/* (2) the octets in A.out through one of the library's own receivers */
+static const char *SRCN[3] = { "chunk source", "octet source", "chunk source offering a 64-octet scratch buffer" };
+
+static bool
+receive(const struct rframe *want, const char *name, bool tcp, bool rm16, size_t blocksize, int srcmode, const char *room)
+{
+    bool ok = true;
+    drv_init_ex(&B, tcp, rm16, blocksize, srcmode);
+    drv_feed(&B, A.out, A.outlen);
+    RPMaybeFrame mf;
+    memset(&mf, 0, sizeof mf);
+    const int rrc = regp_recv(&B.p, &mf);
+    mc_trans(1);
+    mc_log("receiver (%s, mem%d, %s): rc=%d error.id=%d frame=%s", room, rm16 ? 16 : 8, SRCN[srcmode], rrc, mf.error.id, mf.frame ? "yes" : "NULL");
+    if (B.overrun) {
+        mc_fail("C08/own-receiver-accepts", "%s: receiver (%s, %s) exceeded the driver call budget", name, room, SRCN[srcmode]);
+        ok = false;
+    } else if (rrc < 0 || mf.error.id != 0 || mf.frame == NULL) {
+        mc_fail("C08/own-receiver-accepts", "%s: receiver (%s, mem%d, %s) rc=%d error.id=%d", name, room, rm16 ? 16 : 8, SRCN[srcmode], rrc, mf.error.id);
+        ok = false;
+    } else {
+        const RPFrame *f = mf.frame;
+        if ((unsigned)f->header.type != want->type || f->header.options != want->options || f->header.meta.raw != want->meta
+            || f->header.sequence != want->seq || f->header.address != want->addr || f->header.blocksize != want->bsize) {
+            mc_fail("C08/roundtrip-fields", "%s: received (%s) type=%d opt=%x meta=%u seq=%u addr=%x bsize=%u; sent type=%u opt=%x meta=%u seq=%u addr=%x bsize=%u",
+                    name, room, f->header.type, f->header.options, f->header.meta.raw, f->header.sequence, f->header.address, f->header.blocksize,
+                    want->type, want->options, want->meta, want->seq, want->addr, want->bsize);
+            ok = false;
+        } else if (f->payload.size != want->plen || (want->plen && memcmp(f->payload.data, want->payload, want->plen) != 0)) {
+            mc_fail("C08/roundtrip-payload", "%s: received (%s) %zu payload octets, sent %zu (or content differs)", name, room, f->payload.size, want->plen);
+            ok = false;
+        } else if (B.outlen != 0) {
+            mc_fail("C08/own-receiver-accepts", "%s: receiver (%s) emitted %zu octets on reception of a valid frame", name, room, B.outlen);
+            ok = false;
+        }
+    }
+    if (mf.frame)
+        regp_free(&B.p, mf.frame);
+    if (ok && !drv_balanced(&B)) {
+        mc_fail("C08/receiver-ledger", "%s: allocator ledger unbalanced after receive+free (%s)", name, room);
+        ok = false;
+    }
+    drv_release(&B);
+    return ok;
+}
+
+/* the reference wire image of the last emission that passed clause (1) */
+static unsigned char g_ref_wire[2 * RR_MAXFRAME + 16];
+static size_t g_ref_wn;
+static bool g_refused; /* the last emission was refused without emitting anything (admitted for a word size mismatch only) */
+
 /* one emission; returns false after a recorded failure.  fresh: on a new
  * instance (responses, meta); otherwise on the session set up by new_session */
 static bool
-one(int e, bool tcp, bool m16, int anstype, uint32_t addr, uint16_t seq, size_t n, int content, uint32_t value, bool fresh)
+one(int e, bool tcp, bool m16, int anstype, uint32_t addr, uint16_t seq, size_t n, int content, uint32_t value, bool fresh, unsigned reqvar)
 {
+    struct emission m;
+    memset(&m, 0, sizeof m);
+    m.e = e; m.tcp = tcp; m.m16 = m16; m.anstype = anstype; m.addr = addr; m.seq = seq; m.n = n; m.content = content; m.value = value; m.reqvar = reqvar;
+    em_prepare(&m);
     if (fresh)
         drv_init(&A, tcp, m16, 4096, false);
     A.outlen = 0;
-    RPFrame req;
-    memset(&req, 0, sizeof req);
-    req.header.type = anstype ? RP_FRAME_WRITE_REQUEST : RP_FRAME_READ_REQUEST;
-    req.header.sequence = seq;
-    req.header.address = addr;
-    req.header.blocksize = 3;
-    req.header.options = m16 ? RP_OPT_WORD_SIZE_16 : 0;
-    /* payload memory: exact-size heap block */
-    const bool w16 = (e == E_REQ_WRITE16) || (e == E_ACK_PAYLOAD && m16);
-    const size_t plen = (e == E_REQ_WRITE8 || e == E_REQ_WRITE16 || e == E_ACK_PAYLOAD) ? n * (w16 ? 2u : 1u) : 0;
-    unsigned char *pl = mc_exact(plen);
-    fill(pl, plen, content);
-    int rc = 0;
-    struct rframe want;
-    memset(&want, 0, sizeof want);
-    want.seq = seq;
-    want.addr = addr;
-    unsigned char p32[4] = { (unsigned char)(value >> 24), (unsigned char)(value >> 16), (unsigned char)(value >> 8), (unsigned char)value };
-    switch (e) {
-    case E_REQ_READ8: rc = regp_req_read8(&A.p, addr, n); want.type = RT_READ_REQ; want.bsize = (uint32_t)n; break;
-    case E_REQ_READ16: rc = regp_req_read16(&A.p, addr, n); want.type = RT_READ_REQ; want.bsize = (uint32_t)n; want.options = RO_W16; break;
-    case E_REQ_WRITE8: rc = regp_req_write8(&A.p, addr, n, pl); want.type = RT_WRITE_REQ; want.bsize = (uint32_t)n; want.payload = pl; want.plen = plen; break;
-    case E_REQ_WRITE16: rc = regp_req_write16(&A.p, addr, n, (const uint16_t *)(const void *)pl); want.type = RT_WRITE_REQ; want.bsize = (uint32_t)n; want.options = RO_W16; want.payload = pl; want.plen = plen; break;
-    case E_ACK_PAYLOAD: rc = regp_resp_ack(&A.p, &req, n ? pl : NULL, n); want.type = anstype ? RT_WRITE_RESP : RT_READ_RESP; want.bsize = (uint32_t)n; want.options = m16 ? RO_W16 : 0; want.payload = pl; want.plen = plen; break;
-    case E_ACK_EMPTY: rc = regp_resp_ack(&A.p, &req, NULL, 0); want.type = anstype ? RT_WRITE_RESP : RT_READ_RESP; want.options = m16 ? RO_W16 : 0; break;
-    case E_EWORDSIZE: rc = regp_resp_ewordsize(&A.p, &req); break;
-    case E_EPAYLOADCRC: rc = regp_resp_epayloadcrc(&A.p, &req); break;
-    case E_EPAYLOADSIZE: rc = regp_resp_epayloadsize(&A.p, &req); break;
-    case E_ERXOVERFLOW: rc = regp_resp_erxoverflow(&A.p, &req, value); break;
-    case E_ETXOVERFLOW: rc = regp_resp_etxoverflow(&A.p, &req, value); break;
-    case E_EBUSY: rc = regp_resp_ebusy(&A.p, &req); break;
-    case E_EUNMAPPED: rc = regp_resp_eunmapped(&A.p, &req, value); break;
-    case E_EACCESS: rc = regp_resp_eaccess(&A.p, &req, value); break;
-    case E_ERANGE: rc = regp_resp_erange(&A.p, &req, value); break;
-    case E_EINVALID: rc = regp_resp_einvalid(&A.p, &req, value); break;
-    case E_EIO: rc = regp_resp_eio(&A.p, &req); break;
-    case E_META_ENC: rc = regp_resp_meta(&A.p, RP_META_EHEADERENC); break;
-    case E_META_CRC: rc = regp_resp_meta(&A.p, RP_META_EHEADERCRC); break;
-    }
+    g_ref_wn = 0;
+    g_refused = false;
+    const int rc = em_emit(&A.p, &m);
     mc_trans(1);
-    if (e >= E_EWORDSIZE && e <= E_EIO) {
-        want.type = anstype ? RT_WRITE_RESP : RT_READ_RESP;
-        want.meta = (unsigned)ECODE[e];
-        if (e == E_ERXOVERFLOW || e == E_ETXOVERFLOW || (e >= E_EUNMAPPED && e <= E_EINVALID)) {
-            want.bsize = 4;
-            want.payload = p32;
-            want.plen = 4;
-        }
-    } else if (e >= E_META_ENC) {
-        want.type = RT_META;
-        want.meta = (unsigned)ECODE[e];
-        want.seq = 0;
-        want.addr = 0;
-    }
-    if (!tcp) {
-        want.options |= RO_HDCRC;
-        if (want.plen)
-            want.options |= RO_PLCRC;
-    }
+    struct rframe want;
+    unsigned char p32[4];
+    em_want(&m, &want, p32);
     bool ok = true;
-    unsigned char raw[RR_MAXFRAME], wire[2 * RR_MAXFRAME + 16], scratch[DRV_WIRE];
-    mc_log("%s rc=%d emitted %zu octets", ENAME[e], rc, A.outlen);
+    unsigned char raw[RR_MAXFRAME], scratch[DRV_WIRE];
+    size_t rn = 0;
+    mc_log("%s (request options %x) rc=%d emitted %zu octets", ENAME[e], m.req.header.options, rc, A.outlen);
     mc_log_hex("wire", A.out, A.outlen);
+    if (rc < 0 && m.mismatch && A.outlen == 0) {
+        /* refusing to acknowledge a request of the other word size emits no frame */
+        g_refused = true;
+        if (fresh)
+            drv_release(&A);
+        em_release(&m);
+        return true;
+    }
     if (rc < 0) {
         mc_fail("C08/emit-succeeds", "%s returned %d", ENAME[e], rc);
         ok = false;
@@ -187,70 +341,253 @@ one(int e, bool tcp, bool m16, int anstype, uint32_t addr, uint16_t seq, size_t 
         } else {
             if (e >= E_EWORDSIZE && e <= E_EIO && want.plen == 0 && fr.len[0] >= 2)
                 want.options = (want.options & ~(unsigned)RO_W16) | (scratch[fr.off[0]] & RO_W16);
+            if (m.mismatch && fr.len[0] >= 2) {
+                /* the frame says which of the two word sizes it speaks; its
+                 * payload then is n units of that size */
+                const unsigned w = scratch[fr.off[0]] & RO_W16;
+                want.options = (want.options & ~(unsigned)RO_W16) | w;
+                if (e == E_ACK_PAYLOAD)
+                    want.plen = n * (w ? 2u : 1u);
+            }
             if (e >= E_META_ENC && fr.len[0] >= 8) {
                 /* "In META messages, only the meta field is used" */
-                const unsigned char *m = scratch + fr.off[0];
-                want.options = (want.options & ~(unsigned)RO_W16) | (m[0] & RO_W16);
-                want.seq = (uint16_t)((m[2] << 8) | m[3]);
-                want.addr = ((uint32_t)m[4] << 24) | ((uint32_t)m[5] << 16) | ((uint32_t)m[6] << 8) | m[7];
+                const unsigned char *mm = scratch + fr.off[0];
+                want.options = (want.options & ~(unsigned)RO_W16) | (mm[0] & RO_W16);
+                want.seq = (uint16_t)((mm[2] << 8) | mm[3]);
+                want.addr = ((uint32_t)mm[4] << 24) | ((uint32_t)mm[5] << 16) | ((uint32_t)mm[6] << 8) | mm[7];
             }
             if (e <= E_REQ_WRITE16 && fr.len[0] >= 4) {
                 /* the number is the session's; that it is the right one is clause (3) */
-                const unsigned char *m = scratch + fr.off[0];
-                want.seq = (uint16_t)((m[2] << 8) | m[3]);
+                const unsigned char *mm = scratch + fr.off[0];
+                want.seq = (uint16_t)((mm[2] << 8) | mm[3]);
             }
-            const size_t rn = rr_build(raw, &want, false, false);
-            const size_t wn = tcp ? rr_lenprefix(wire, raw, rn) : rr_slip(wire, raw, rn);
-            if (wn != A.outlen || memcmp(wire, A.out, wn) != 0) {
+            rn = rr_build(raw, &want, false, false);
+            const size_t wn = tcp ? rr_lenprefix(g_ref_wire, raw, rn) : rr_slip(g_ref_wire, raw, rn);
+            if (wn != A.outlen || memcmp(g_ref_wire, A.out, wn) != 0) {
                 mc_fail("C08/wire-octets", "%s: emitted octets differ from the protocol document's encoding (%zu vs %zu octets)", ENAME[e], A.outlen, wn);
-                mc_log_hex("reference", wire, wn);
+                mc_log_hex("reference", g_ref_wire, wn);
                 ok = false;
-            }
+            } else
+                g_ref_wn = wn;
         }
     }
     /* (3) session sequence */
     if (ok && e <= E_REQ_WRITE16)
         ok = follows(emitted_seq(tcp), ENAME[e]);
-    /* (2) own receiver */
-    if (ok) {
-        drv_init(&B, tcp, m16, 4096, false);
-        drv_feed(&B, A.out, A.outlen);
-        RPMaybeFrame mf;
-        memset(&mf, 0, sizeof mf);
-        const int rrc = regp_recv(&B.p, &mf);
-        mc_trans(1);
-        mc_log("receiver: rc=%d error.id=%d frame=%s", rrc, mf.error.id, mf.frame ? "yes" : "NULL");
-        if (rrc < 0 || mf.error.id != 0 || mf.frame == NULL) {
-            mc_fail("C08/own-receiver-accepts", "%s: receiver rc=%d error.id=%d", ENAME[e], rrc, mf.error.id);
-            ok = false;
-        } else {
-            const RPFrame *f = mf.frame;
-            if ((unsigned)f->header.type != want.type || f->header.options != want.options || f->header.meta.raw != want.meta
-                || f->header.sequence != want.seq || f->header.address != want.addr || f->header.blocksize != want.bsize) {
-                mc_fail("C08/roundtrip-fields", "%s: received type=%d opt=%x meta=%u seq=%u addr=%x bsize=%u; sent type=%u opt=%x meta=%u seq=%u addr=%x bsize=%u",
-                        ENAME[e], f->header.type, f->header.options, f->header.meta.raw, f->header.sequence, f->header.address, f->header.blocksize,
-                        want.type, want.options, want.meta, want.seq, want.addr, want.bsize);
-                ok = false;
-            } else if (f->payload.size != want.plen || (want.plen && memcmp(f->payload.data, want.payload, want.plen) != 0)) {
-                mc_fail("C08/roundtrip-payload", "%s: received %zu payload octets, sent %zu (or content differs)", ENAME[e], f->payload.size, want.plen);
-                ok = false;
-            } else if (B.outlen != 0) {
-                mc_fail("C08/own-receiver-accepts", "%s: receiver emitted %zu octets on reception of a valid frame", ENAME[e], B.outlen);
-                ok = false;
-            }
-        }
-        if (mf.frame)
-            regp_free(&B.p, mf.frame);
-        if (ok && !drv_balanced(&B)) {
-            mc_fail("C08/receiver-ledger", "%s: allocator ledger unbalanced after receive+free", ENAME[e]);
-            ok = false;
-        }
-        drv_release(&B);
-    }
+    /* (2) own receiver: a large block; a block with room for exactly this
+     * frame behind the frame descriptor; one octet to spare.  The receiving
+     * instance's memory width is its own business, as is the way its source
+     * delivers the octets. */
+    if (ok)
+        ok = receive(&want, ENAME[e], tcp, m16, 4096, DRV_SRC_CHUNK, "block of 4096 octets");
+    if (ok)
+        ok = receive(&want, ENAME[e], tcp, !m16, sizeof(RPFrame) + rn, tcp ? DRV_SRC_CHUNK_GETBUFFER : DRV_SRC_OCTET, "block with room for exactly the frame");
+    if (ok)
+        ok = receive(&want, ENAME[e], tcp, m16, sizeof(RPFrame) + rn + 1, DRV_SRC_OCTET, "block with one octet to spare");
     if (fresh)
         drv_release(&A);
-    free(pl);
+    em_release(&m);
     return ok;
+}
+
+/* ---- sink answers ------------------------------------------------------------------ */
+/* A sink may take fewer octets than offered, none at all, or ask for a retry
+ * (EAGAIN, EINTR); or fail for good.  Whatever the emitter does about it: when
+ * it reports success the wire holds exactly the frame. */
+enum { SA_EAGAIN, SA_EINTR, SA_SHORT1, SA_SHORTM1, SA_ZERO, SA_EIO, SA_COUNT };
+static const char *SANAME[SA_COUNT] = { "EAGAIN", "EINTR", "a short write of one octet", "a short write of all but one octet", "a zero-length write", "EIO" };
+
+static struct ssink {
+    unsigned char out[DRV_WIRE];
+    size_t outlen;
+    long calls, budget;
+    long at[2];
+    int ans[2];
+    int nhit;
+    bool zero_to_one; /* a single-octet offer was answered with a zero-length write */
+    bool overrun;
+} S;
+
+static ssize_t
+ssink_take(struct ssink *s, const unsigned char *d, size_t n)
+{
+    if (s->outlen + n > DRV_WIRE) {
+        s->overrun = true;
+        return -EIO;
+    }
+    memcpy(s->out + s->outlen, d, n);
+    s->outlen += n;
+    return (ssize_t)n;
+}
+
+static ssize_t
+ssink_chunk(void *drv, const void *data, size_t n)
+{
+    struct ssink *s = drv;
+    const long k = s->calls++;
+    if (k >= s->budget) {
+        s->overrun = true;
+        return -EIO;
+    }
+    for (int i = 0; i < 2; ++i)
+        if (k == s->at[i]) {
+            s->nhit++;
+            switch (s->ans[i]) {
+            case SA_EAGAIN: return -EAGAIN;
+            case SA_EINTR: return -EINTR;
+            case SA_ZERO:
+                if (n == 1)
+                    s->zero_to_one = true;
+                return 0;
+            case SA_EIO: return -EIO;
+            case SA_SHORT1: return ssink_take(s, data, n > 1 ? 1 : n);
+            case SA_SHORTM1: return ssink_take(s, data, n > 1 ? n - 1 : n);
+            }
+        }
+    return ssink_take(s, data, n);
+}
+
+static int
+ssink_octet(void *drv, unsigned char c)
+{
+    return (int)ssink_chunk(drv, &c, 1);
+}
+
+/* the emission again, on a new instance whose sink follows the script */
+static int
+emit_scripted(struct emission *m, bool octet_sink, long at1, int a1, long at2, int a2)
+{
+    drv_init(&A, m->tcp, m->m16, 4096, false);
+    memset(&S, 0, sizeof S);
+    S.at[0] = at1; S.ans[0] = a1;
+    S.at[1] = at2; S.ans[1] = a2;
+    S.budget = 4 * (long)g_ref_wn + 64;
+    Source src;
+    Sink snk;
+    chunk_source_init(&src, drv_src_chunk, &A);
+    if (octet_sink)
+        octet_sink_init(&snk, ssink_octet, &S);
+    else
+        chunk_sink_init(&snk, ssink_chunk, &S);
+    regp_use_channel(&A.p, m->tcp ? RP_EP_TCP : RP_EP_SERIAL, src, snk);
+    const int rc = em_emit(&A.p, m);
+    mc_trans(1);
+    drv_release(&A);
+    return rc;
+}
+
+static long g_delivered, g_refusals;
+
+/* judge one scripted emission; false after a recorded failure */
+static bool
+judge_scripted(const struct emission *m, int rc, const char *script)
+{
+    if (S.overrun) {
+        mc_fail("C08/hang", "%s n=%zu content=%d addr=%08x, sink answers %s: the emitter keeps calling the sink (%ld calls for a frame of %zu octets)", ENAME[m->e], m->n,
+                m->content, m->addr, script, S.calls, g_ref_wn);
+        return false;
+    }
+    if (rc < 0) {
+        g_refusals++; /* nothing is claimed about an emission that reports failure */
+        return true;
+    }
+    if (S.outlen != g_ref_wn || memcmp(S.out, g_ref_wire, g_ref_wn) != 0) {
+        /* (a clause of its own for scripts in which a single-octet offer was answered with "nothing
+         * taken": sink_put_octet hands that answer to its caller) */
+        mc_fail(S.zero_to_one ? "C08/wire-octets-after-zero-length-octet-write" : "C08/wire-octets-when-sink-hesitates", "%s n=%zu content=%d addr=%08x value=%08x, sink answers %s: the emitter returned %d but the wire holds %zu octets that are not the frame (%zu octets)",
+                ENAME[m->e], m->n, m->content, m->addr, m->value, script, rc, S.outlen, g_ref_wn);
+        mc_log_hex("wire", S.out, S.outlen);
+        mc_log_hex("reference", g_ref_wire, g_ref_wn);
+        return false;
+    }
+    g_delivered++;
+    return true;
+}
+
+static bool
+sink_answer_applies(bool octet_sink, int a)
+{
+    return !(octet_sink && (a == SA_SHORT1 || a == SA_SHORTM1)); /* an octet sink takes the octet or does not */
+}
+
+static void
+family_sink_answers(bool th)
+{
+    static const uint32_t SADDR[2] = { 0x64, 0xc0dbdcddu };
+    static const uint32_t SVAL[2] = { 0x40, 0xc0dbdcddu };
+    static const size_t SSIZE[] = { 0, 1, 2, 3, 5, 8 }; /* the last one in the thorough tier only */
+    char script[160];
+    for (int e = 0; e < E_COUNT; ++e)
+        for (int tcp = 0; tcp < 2; ++tcp)
+            for (int m16 = 0; m16 < 2; ++m16)
+                for (int anstype = 0; anstype < 2; ++anstype) {
+                    if ((e <= E_REQ_WRITE16 || e >= E_META_ENC || e == E_ACK_PAYLOAD) && anstype)
+                        continue;
+                    for (int osink = 0; osink < 2; ++osink)
+                        for (int a1 = 0; a1 < SA_COUNT; ++a1) {
+                            if (!sink_answer_applies(osink, a1))
+                                continue;
+                            if (!mc_case("sink answers: %s %s mem%d answering=%s, %s sink answers %s at call k, alone and with a second deviation at %s x frames",
+                                         ENAME[e], tcp ? "tcp" : "serial", m16 ? 16 : 8, anstype ? "write" : "read", osink ? "octet" : "chunk", SANAME[a1],
+                                         th ? "every later call" : "call k+1"))
+                                continue;
+                            bool ok = true;
+                            long reached = 0;
+                            g_delivered = g_refusals = 0;
+                            const int nsz = emits_with_size(e) ? (int)(sizeof SSIZE / sizeof *SSIZE) - (th ? 0 : 1) : 1;
+                            for (int ai = 0; ai < (th ? 7 : 2) && ok; ++ai)
+                                for (int zi = 0; zi < nsz && ok; ++zi)
+                                    for (int c = 0; c < 3 && ok; ++c) {
+                                        /* contents: ramp, all c0, all db (requests without payload and empty blocks: one) */
+                                        const bool has_pl = (e == E_REQ_WRITE8 || e == E_REQ_WRITE16 || e == E_ACK_PAYLOAD) && SSIZE[zi] > 0;
+                                        if (!emits_with_size(e) ? c > 1 : (!has_pl && c))
+                                            continue;
+                                        struct emission m;
+                                        memset(&m, 0, sizeof m);
+                                        m.e = e; m.tcp = tcp; m.m16 = m16; m.anstype = anstype; m.addr = th ? ADDRS[ai] : SADDR[ai]; m.seq = 0x1dc0;
+                                        m.n = emits_with_size(e) ? SSIZE[zi] : 0;
+                                        m.content = emits_with_size(e) ? c : 0;
+                                        m.value = emits_with_size(e) ? 0 : SVAL[c];
+                                        /* the undisturbed emission: validates it and yields the reference wire image */
+                                        g_have_prev = false;
+                                        ok = one(e, tcp, m16, anstype, m.addr, m.seq, m.n, m.content, m.value, true, 0);
+                                        if (!ok || g_ref_wn == 0)
+                                            break;
+                                        em_prepare(&m);
+                                        for (long at = 0; ok; ++at) {
+                                            int rc = emit_scripted(&m, osink, at, a1, -1, 0);
+                                            if (S.nhit == 0) {
+                                                /* the emission needs fewer calls: this one went undisturbed through this kind of sink */
+                                                if (rc < 0) {
+                                                    mc_fail("C08/emit-succeeds", "%s returned %d on an undisturbed %s sink", ENAME[e], rc, osink ? "octet" : "chunk");
+                                                    ok = false;
+                                                } else
+                                                    ok = judge_scripted(&m, rc, "nothing unusual");
+                                                break;
+                                            }
+                                            reached++;
+                                            snprintf(script, sizeof script, "%s at call %ld", SANAME[a1], at);
+                                            ok = judge_scripted(&m, rc, script);
+                                            for (int a2 = 0; a2 < SA_COUNT && ok; ++a2) {
+                                                if (!sink_answer_applies(osink, a2))
+                                                    continue;
+                                                for (long at2 = at + 1; ok && (th || at2 == at + 1); ++at2) {
+                                                    rc = emit_scripted(&m, osink, at, a1, at2, a2);
+                                                    if (S.nhit < 2)
+                                                        break;
+                                                    snprintf(script, sizeof script, "%s at call %ld and %s at call %ld", SANAME[a1], at, SANAME[a2], at2);
+                                                    ok = judge_scripted(&m, rc, script);
+                                                }
+                                            }
+                                        }
+                                        em_release(&m);
+                                    }
+                            mc_log("%ld call positions reached; %ld emissions reported success with exactly the frame on the wire, %ld reported failure", reached, g_delivered, g_refusals);
+                            /* outcome classes name the script, not the library's reaction to it */
+                            mc_end(reached > 0, !ok ? "failed" : a1 == SA_EIO ? "sink-hard-error" : a1 == SA_ZERO ? "sink-zero-length-write"
+                                   : (a1 == SA_SHORT1 || a1 == SA_SHORTM1) ? "sink-short-write" : "sink-retry-request");
+                        }
+                }
 }
 
 int
@@ -276,7 +613,9 @@ main(int argc, char **argv)
     int nsz = 0;
     for (size_t s = 0; s <= (th ? 70u : 20u); ++s)
         sizes[nsz++] = s;
-    const size_t extra[] = { 49, 50, 51, 52, 55, 56, 57, 58, 63, 64, 65, 100, 111, 112, 113, 114, 115, 116, 117, 118, 127, 128, 129, 200, 255, 256, 257, 1000 };
+    /* boundary sizes: raw frame lengths (12/14/16 octets of header + payload) around 64 and 128
+     * (the chunk size of the scratch-buffer source and twice it), the TCP frame at 127/128, ... */
+    const size_t extra[] = { 23, 24, 25, 26, 27, 47, 48, 49, 50, 51, 52, 53, 55, 56, 57, 58, 59, 63, 64, 65, 100, 111, 112, 113, 114, 115, 116, 117, 118, 127, 128, 129, 200, 255, 256, 257, 1000 };
     for (unsigned i = 0; i < sizeof extra / sizeof *extra; ++i)
         if (extra[i] > (th ? 70u : 20u))
             sizes[nsz++] = extra[i];
@@ -293,14 +632,15 @@ main(int argc, char **argv)
                     for (unsigned ai = 0; ai < sizeof ADDRS / sizeof *ADDRS; ++ai)
                         for (unsigned si = 0; si < 4; ++si) {
                             const bool isreq = e <= E_REQ_WRITE16;
+                            const bool isresp = e >= E_ACK_PAYLOAD && e <= E_EIO;
                             if (isreq && !th && SEQS[si] > 1 && ai != 2 && ai != 6)
                                 continue; /* quick: long sessions (tens of thousands of earlier requests) for two addresses only */
                             if (!mc_case(isreq ? "%s %s mem%d answering=%s addr=%08x after %u earlier requests of the session x sizes x contents"
-                                               : "%s %s mem%d answering=%s addr=%08x seq=%04x x sizes x contents",
+                                               : "%s %s mem%d answering=%s addr=%08x seq=%04x x sizes x contents x request option bits",
                                          ENAME[e], tcp ? "tcp" : "serial", m16 ? 16 : 8, anstype ? "write" : "read", ADDRS[ai], SEQS[si]))
                                 continue;
                             bool ok = true;
-                            long n = 0;
+                            long n = 0, refused = 0;
                             if (isreq)
                                 ok = new_session(tcp, m16, SEQS[si]);
                             if (emits_with_size(e)) {
@@ -310,18 +650,28 @@ main(int argc, char **argv)
                                             continue;
                                         if (sizes[zi] == 0 && c)
                                             continue;
-                                        ok = one(e, tcp, m16, anstype, ADDRS[ai], SEQS[si], sizes[zi], c, 0, !isreq);
-                                        n++;
+                                        /* responders: the request's WORD-SIZE-16 bit equal to / different from the attached
+                                         * memory; for small blocks also every combination of its two checksum bits */
+                                        for (unsigned rv = 0; rv < (isresp ? 8u : 1u) && ok; ++rv) {
+                                            if ((rv & 6u) && sizes[zi] > 4)
+                                                continue;
+                                            ok = one(e, tcp, m16, anstype, ADDRS[ai], SEQS[si], sizes[zi], c, 0, !isreq, rv);
+                                            refused += g_refused;
+                                            n++;
+                                        }
                                     }
                             } else {
                                 static const uint32_t VAL[] = { 0, 1, 0x40, 0xc0dbdcddu, 0xffffffffu, 0x00c000dbu };
-                                for (unsigned vi = 0; vi < 6 && ok; ++vi) {
-                                    ok = one(e, tcp, m16, anstype, ADDRS[ai], SEQS[si], 0, 0, VAL[vi], true);
-                                    n++;
-                                }
+                                for (unsigned vi = 0; vi < 6 && ok; ++vi)
+                                    for (unsigned rv = 0; rv < (isresp ? 8u : 1u) && ok; ++rv) {
+                                        ok = one(e, tcp, m16, anstype, ADDRS[ai], SEQS[si], 0, 0, VAL[vi], true, rv);
+                                        refused += g_refused;
+                                        n++;
+                                    }
                             }
                             if (isreq)
                                 drv_release(&A);
+                            mc_log("%ld emissions, %ld refused without emitting (word size mismatch)", n, refused);
                             mc_end(true, !ok ? "failed" : e <= E_REQ_WRITE16 ? "request-roundtrip" : e <= E_ACK_EMPTY ? "ack-roundtrip"
                                    : e <= E_EIO ? "error-response-roundtrip" : "meta-roundtrip");
                         }
@@ -372,7 +722,8 @@ main(int argc, char **argv)
         drv_release(&A);
         mc_end(true, ok ? "sequence-wraps" : "failed");
     }
-    mc_finish(true, th ? "19 emitters x 2 transports x 2 memory widths x answered type x 7 addresses x 4 sequence numbers x sizes {0..70, boundary sizes up to 1000} x 4 contents / 6 payload values; 65537 consecutive requests per transport"
-                       : "19 emitters x 2 transports x 2 memory widths x answered type x 7 addresses x 4 sequence numbers x sizes {0..20, boundary sizes up to 1000} x 4 contents / 6 payload values; 65537 consecutive requests per transport");
+    family_sink_answers(th);
+    mc_finish(true, th ? "19 emitters x 2 transports x 2 memory widths x answered type x 7 addresses x 4 sequence numbers x sizes {0..70, boundary sizes up to 1000} x 4 contents / 6 payload values x request option bits (word size equal/different; all 8 combinations for blocks <= 4) x 3 receivers (block of 4096, exact fit, one to spare); 65537 consecutive requests per transport; sink answers: 19 emitters x 2 transports x 2 memory widths x octet/chunk sink x {EAGAIN, EINTR, short write 1, short write n-1, zero-length write, EIO} at every call position x a second answer at every later call position, frames of 0..8 units x 3 contents x 7 addresses / 2 payload values"
+                       : "19 emitters x 2 transports x 2 memory widths x answered type x 7 addresses x 4 sequence numbers x sizes {0..20, boundary sizes up to 1000} x 4 contents / 6 payload values x request option bits (word size equal/different; all 8 combinations for blocks <= 4) x 3 receivers (block of 4096, exact fit, one to spare); 65537 consecutive requests per transport; sink answers: 19 emitters x 2 transports x 2 memory widths x octet/chunk sink x {EAGAIN, EINTR, short write 1, short write n-1, zero-length write, EIO} at every call position x a second answer at the following call, frames of 0..5 units x 3 contents x 2 addresses / 2 payload values");
     return 0;
 }
